@@ -107,9 +107,21 @@ static int name_ok(const unsigned char *p, size_t l)
 	return 1;
 }
 
+/* empties the three directories completely: a crashed child of an earlier run may have left files under the same pid */
 static void rm_tree(void)
 {
-	for (int i = 0; i < n_created; i++) unlink(created[i]);
+	for (int k = 0; k < 3; k++) {
+		DIR *d = opendir(lvldir[k]);
+		if (!d) continue;
+		struct dirent *e;
+		while ((e = readdir(d)) != NULL) {
+			char path[400];
+			if (e->d_name[0] == '.' && (!e->d_name[1] || (e->d_name[1] == '.' && !e->d_name[2]))) continue;
+			snprintf(path, sizeof(path), "%s/%s", lvldir[k], e->d_name);
+			unlink(path);
+		}
+		closedir(d);
+	}
 	n_created = 0;
 	rmdir("dom/user"); rmdir("dom"); rmdir("control");
 }
